@@ -1306,6 +1306,23 @@ class Interp:
             return v
         if n.id == "NotImplemented":
             return Ext("NotImplemented")
+        # a name the function assigns somewhere is a LOCAL of that function (Python scoping): reading it on a path where it is
+        # not bound raises UnboundLocalError - it is never looked up as a global
+        fi = fr.fi
+        if fi is not None and fr.closure is None:
+            loc = getattr(fi, "_local_names", None)
+            if loc is None:
+                loc = set(self.assigned_names(fi.node.body)) | {a.arg for a in fi.node.args.args + fi.node.args.kwonlyargs + fi.node.args.posonlyargs}
+                for st in ast.walk(fi.node):
+                    if isinstance(st, (ast.Global, ast.Nonlocal)):
+                        loc -= set(st.names)
+                    if isinstance(st, ast.ExceptHandler) and st.name:
+                        loc.add(st.name)
+                    if isinstance(st, (ast.Import, ast.ImportFrom)):
+                        loc |= {(a.asname or a.name).split(".")[0] for a in st.names}
+                fi._local_names = loc
+            if n.id in loc:
+                self.raise_("UnboundLocalError", f"cannot access local variable '{n.id}' where it is not associated with a value")
         return self.resolve_global(fr.module, n.id)
 
     def e_Attribute(self, n, fr):
